@@ -3,7 +3,7 @@
 (* TLC's workers share the work), evaluates the contract on the algorithm    *)
 (* model, and emits every configuration for replay on the real renderer.     *)
 EXTENDS Render, Json
-CONSTANTS Sizes, RowLens, MaxRows, MaxIdx, Tpls, Menus, ErrLens, ValLens
+CONSTANTS Sizes, RowLens, MaxRows, MaxIdx, Tpls, Menus, ErrLens, ValLens, Msinks
 VARIABLES cfg, done
 
 \* tpl is the total of static bytes: template text (tplstatic) + a mapped non-sink value (vallen) + the error prefix and its
@@ -15,8 +15,10 @@ AddRow == /\ ~done /\ Len(cfg.rows) < MaxRows
           /\ \E r \in RowLens : cfg' = [cfg EXCEPT !.rows = Append(cfg.rows, r)]
           /\ UNCHANGED done
 Fix == /\ ~done /\ Len(cfg.rows) > 0
-       /\ \E s \in Sizes, t \in Tpls, m \in Menus, b \in BOOLEAN, e \in ErrLens, v \in ValLens :
-            cfg' = [cfg EXCEPT !.size = s, !.tplstatic = t, !.errlen = e, !.vallen = v,
+       /\ \E s \in Sizes, t \in Tpls, m \in Menus, b \in BOOLEAN, e \in ErrLens, v \in ValLens, ms \in Msinks :
+            \* menu-as-sink (MSINK): the rows are menu lines "<sel>:<title>" (at least 3 bytes), no sink symbol, no mapped value
+            /\ (ms => (v = 0 /\ m = 0 /\ \A i \in DOMAIN cfg.rows : cfg.rows[i] >= 3))
+            /\ cfg' = [cfg EXCEPT !.size = s, !.msink = ms, !.tplstatic = t, !.errlen = e, !.vallen = v,
                                !.tpl = t + v + (IF e > 0 THEN e + 1 ELSE 0),
                                !.menu = m, !.nextLen = IF b THEN 7 ELSE 0, !.prevLen = IF b THEN 11 ELSE 0]
        /\ done' = TRUE
